@@ -9,13 +9,10 @@ Open Scope list_scope.
 
 Notation "a +++ b" := (String.append a b) (at level 60, right associativity).
 
-(* separators: levels 1..4 = US RS GS FS *)
-Definition S1 := str1 (ch 31).
-Definition S2 := str1 (ch 30).
-Definition S3 := str1 (ch 29).
-Definition S4 := str1 (ch 28).
-
-Definition dlist (sep : string) (l : list string) : string := string_of_nat (List.length l) +++ sep +++ join sep l.
+(* A digest is a flat list of atoms; every list is preceded by its length, so the reading is unique.  (Atoms
+   rather than one concatenated text: the generated cases files intern each distinct string once - Coq 8.16
+   spends tens of microseconds per character of a string literal.) *)
+Definition dlist (l : list string) : list string := string_of_nat (List.length l) :: l.
 Definition dbool (b : bool) : string := if b then "1" else "0".
 
 (* ---- oracles carried by a case -------------------------------------------------------------------- *)
@@ -28,7 +25,7 @@ Record ccase := {
   cc_env0 : list (string * string);
   cc_fname : string;
   cc_mode : nat;                                 (* 0: C13 (full DAG digest, environment); 1: C19 (class, environment, executed commands) *)
-  cc_expect : list (nat * string) }.             (* (entry point, expected digest) *)
+  cc_expect : list (nat * list string) }.        (* (entry point, expected digest) *)
 
 Fixpoint assoc {A} (d : A) (l : list (string * A)) (k : string) : A :=
   match l with [] => d | (k', v) :: r => if String.eqb k k' then v else assoc d r k end.
@@ -64,27 +61,25 @@ Definition load (c : ccase) (ep : nat) (root : yv) : res dag * envt * list effec
   end.
 
 (* ---- digests ------------------------------------------------------------------------------------------ *)
-Definition dstep (s : step) : string :=
-  join S3 [st_name s; st_command s; dlist S4 (if st_fromCall s then sort_strings (st_args s) else st_args s); st_cmdWithArgs s; st_execType s;
-           dbool (match st_subWorkflow s with Some _ => true | None => false end); st_signalOnStop s; st_script s;
-           string_of_nat (List.length (st_preconditions s))].
-Definition dostep (s : option step) : string := match s with Some x => dstep x | None => "-" end.
+Definition dstep (s : step) : list string :=
+  [st_name s; st_command s] ++ dlist (if st_fromCall s then sort_strings (st_args s) else st_args s) ++
+  [st_cmdWithArgs s; st_execType s; dbool (match st_subWorkflow s with Some _ => true | None => false end);
+   st_signalOnStop s; st_script s; string_of_nat (List.length (st_preconditions s))].
+Definition dostep (s : option step) : list string := match s with Some x => "+" :: dstep x | None => ["-"] end.
 
 (* class of EvalConditions on one accepted condition: p = panic, n = no panic *)
 Definition cond_class (c : ccase) (cd : condition) : string :=
   match outcome (evalCondition (re_of c) sh_model (fun _ _ => true) cd (cc_env0 c)) with
   | Panic => "p" | _ => "n" end.
 
-Definition ddag (c : ccase) (ep : nat) (g : dag) : string :=
+Definition ddag (c : ccase) (ep : nat) (g : dag) : list string :=
   let name := if is_empty (g_name g) && negb (Nat.eqb ep 0) then cc_fname c else g_name g in
-  join S1 ["O"; name; dlist S2 (g_tags g);
-           join S3 [dlist S2 (g_schedule g); dlist S2 (g_stopSchedule g); dlist S2 (g_restartSchedule g)];
-           dlist S2 (sort_strings (g_env g)); g_logDir g; g_defaultParams g; dlist S2 (g_params g);
-           dlist S2 (map dstep (g_steps g));
-           join S2 [dostep (g_onExit g); dostep (g_onSuccess g); dostep (g_onFailure g); dostep (g_onCancel g)];
-           string_of_nat (List.length (g_preconditions g));
-           dbool (json_ok g);
-           if Nat.eqb ep 0 then String.concat "" (map (cond_class c) (all_conditions g)) else ""].
+  ["O"; name] ++ dlist (g_tags g) ++ dlist (g_schedule g) ++ dlist (g_stopSchedule g) ++ dlist (g_restartSchedule g) ++
+  dlist (sort_strings (g_env g)) ++ [g_logDir g; g_defaultParams g] ++ dlist (g_params g) ++
+  [string_of_nat (List.length (g_steps g))] ++ flat_map dstep (g_steps g) ++
+  dostep (g_onExit g) ++ dostep (g_onSuccess g) ++ dostep (g_onFailure g) ++ dostep (g_onCancel g) ++
+  [string_of_nat (List.length (g_preconditions g)); dbool (json_ok g);
+   if Nat.eqb ep 0 then String.concat "" (map (cond_class c) (all_conditions g)) else ""].
 
 (* environment difference: final value per variable set, without those equal to the initial value *)
 Fixpoint last_sets (l : list effect) (acc : list (string * string)) : list (string * string) :=
@@ -94,8 +89,8 @@ Fixpoint last_sets (l : list effect) (acc : list (string * string)) : list (stri
   | _ :: r => last_sets r acc
   end.
 Definition has_key (e : envt) (k : string) : bool := existsb (fun kv => String.eqb (fst kv) k) e.
-Definition denv (c : ccase) (l : list effect) : string :=
-  dlist S2 (sort_strings (map (fun kv => fst kv +++ "=" +++ snd kv)
+Definition denv (c : ccase) (l : list effect) : list string :=
+  dlist (sort_strings (map (fun kv => fst kv +++ "=" +++ snd kv)
      (filter (fun kv => negb (has_key (cc_env0 c) (fst kv) && String.eqb (getenv (cc_env0 c) (fst kv)) (snd kv)))
              (last_sets l [])))).
 Fixpoint dedup_sorted (l : list string) : list string :=
@@ -103,13 +98,13 @@ Fixpoint dedup_sorted (l : list string) : list string :=
   | x :: ((y :: _) as r) => if String.eqb x y then dedup_sorted r else x :: dedup_sorted r
   | _ => l
   end.
-Definition dexec (l : list effect) : string :=
-  dlist S2 (dedup_sorted (sort_strings (flat_map (fun x => match x with EExec s => [s] | _ => [] end) l))).
+Definition dexec (l : list effect) : list string :=
+  dlist (dedup_sorted (sort_strings (flat_map (fun x => match x with EExec s => [s] | _ => [] end) l))).
 
-Definition dres (c : ccase) (ep : nat) (x : res dag * envt * list effect) : string :=
-  (match outcome x with Panic => "P" | Err => "E" | Ok g => if Nat.eqb (cc_mode c) 0 then ddag c ep g else "O" end)
-  +++ S1 +++ "ENV" +++ S1 +++ denv c (effects x)
-  +++ (if Nat.eqb (cc_mode c) 0 then "" else S1 +++ "EXEC" +++ S1 +++ dexec (effects x)).
+Definition dres (c : ccase) (ep : nat) (x : res dag * envt * list effect) : list string :=
+  (match outcome x with Panic => ["P"] | Err => ["E"] | Ok g => if Nat.eqb (cc_mode c) 0 then ddag c ep g else ["O"] end)
+  ++ "ENV" :: denv c (effects x)
+  ++ (if Nat.eqb (cc_mode c) 0 then [] else "EXEC" :: dexec (effects x)).
 
 (* ---- the schedule map is a Go map: every order of its entries is a possible run ------------------------- *)
 Fixpoint inserts {A} (x : A) (l : list A) : list (list A) :=
@@ -126,18 +121,18 @@ Fixpoint perms {A} (l : list A) : list (list A) :=
 Definition variants (root : yv) : list yv :=
   match root with
   | VMap m =>
-      match field m "Schedule" with
+      match field (lower_keys m) "schedule" with
       | VMap sm =>
           if Nat.leb (List.length sm) 4 && Nat.leb 2 (List.length sm) then
-            map (fun p => VMap (map (fun kv => if key_is "Schedule" kv then (fst kv, VMap p) else kv) m)) (perms sm)
+            map (fun p => VMap (map (fun kv => if key_is "schedule" (hd kv (lower_keys [kv])) then (fst kv, VMap p) else kv) m)) (perms sm)
           else [root]
       | _ => [root]
       end
   | _ => [root]
   end.
 
-Definition case_ok (c : ccase) (ep : nat) (expected : string) : bool :=
-  existsb (fun r => String.eqb (dres c ep (load c ep r)) expected) (variants (cc_tree c)).
+Definition case_ok (c : ccase) (ep : nat) (expected : list string) : bool :=
+  existsb (fun r => list_eqb String.eqb (dres c ep (load c ep r)) expected) (variants (cc_tree c)).
 
 Fixpoint mismatches_from (k : nat) (cs : list ccase) : list (nat * nat) :=
   match cs with
@@ -150,4 +145,6 @@ Definition mismatches := mismatches_from 0.
 
 (* diagnostics: the model's digest as a list of character codes (printed only for a mismatching case) *)
 Fixpoint codes (s : string) : list nat := match s with EmptyString => [] | String c r => nat_of_ascii c :: codes r end.
-Definition model_digest (c : ccase) (ep : nat) : list nat := codes (dres c ep (load c ep (cc_tree c))).
+(* (only used for diagnostics) *)
+Definition model_digest (c : ccase) (ep : nat) : list nat :=
+  codes (String.concat (String (Ascii.ascii_of_nat 31) EmptyString) (dres c ep (load c ep (cc_tree c)))).
